@@ -4,6 +4,7 @@ import (
 	"errors"
 	"io"
 	"sync"
+	"time"
 )
 
 // ErrPipeClosed is returned by a closed half pipe.
@@ -36,6 +37,9 @@ type Half struct {
 	// bytes are accepted and the error to return (nil error = accept all).
 	WriteErr func(idx int, p []byte) (int, error)
 	nWrites  int
+	// deadline, if non-zero, makes a Read that finds the stream empty fail
+	// with a timeout error once it has passed (SetReadDeadline).
+	deadline time.Time
 	// Written is the log of what the sender wrote; Delivered of what was
 	// put on the reader's stream.
 	Written   [][]byte
@@ -101,7 +105,17 @@ func (h *Half) Read(p []byte) (int, error) {
 		if h.closed {
 			return 0, io.EOF
 		}
-		if h.peer != nil && h.peer.waiting && len(h.peer.buf) == 0 {
+		if !h.deadline.IsZero() {
+			if !time.Now().Before(h.deadline) {
+				return 0, readTimeout{}
+			}
+			// wait for data, the close or the deadline
+			h.waiting = true
+			h.st.cond.Wait()
+			h.waiting = false
+			continue
+		}
+		if h.peer != nil && h.peer.waiting && h.peer.deadline.IsZero() && len(h.peer.buf) == 0 {
 			h.closed, h.peer.closed = true, true
 			h.Stalled, h.peer.Stalled = true, true
 			h.st.cond.Broadcast()
@@ -123,6 +137,28 @@ func (h *Half) Read(p []byte) (int, error) {
 	copy(p, h.buf[:n])
 	h.buf = h.buf[n:]
 	return n, nil
+}
+
+type readTimeout struct{}
+
+func (readTimeout) Error() string   { return "read: i/o timeout (deadline)" }
+func (readTimeout) Timeout() bool   { return true }
+func (readTimeout) Temporary() bool { return true }
+
+// SetReadDeadline arms (or, with the zero time, clears) the deadline of Read
+// calls that find the stream empty.
+func (h *Half) SetReadDeadline(t time.Time) {
+	h.st.mu.Lock()
+	h.deadline = t
+	h.st.cond.Broadcast()
+	h.st.mu.Unlock()
+	if !t.IsZero() {
+		time.AfterFunc(time.Until(t)+time.Millisecond, func() {
+			h.st.mu.Lock()
+			h.st.cond.Broadcast()
+			h.st.mu.Unlock()
+		})
+	}
 }
 
 // Close closes the half: writers fail, readers drain and get io.EOF.
